@@ -75,7 +75,7 @@ def run(ctx):
     ]
     if ctx.replay:
         return replay(ctx)
-    ctx.extract(["E5_OperatorLadder", "E6_AltOrders"])
+    ctx.extract(["E5_OperatorLadder", "E6_AltOrders", "E6b_TokenLists"])
     ctx.prove("GoldModel.Props.C06")
     ctx.prove("GoldModel.Props.C06Expr")
     ctx.prove("GoldModel.Props.C06Alts")
